@@ -1,2 +1,7 @@
-import Blackbird
-#print axioms Blackbird.dictGet
+import Blackbird.Props.C13
+#print axioms Blackbird.C13_toDiGraph_readonly
+#print axioms Blackbird.C13_matchTemplate_readonly
+#print axioms Blackbird.C13_readonly_step
+#print axioms Blackbird.C13_readonly_sequence
+#print axioms Blackbird.C13_serialisation_unchanged
+#print axioms Blackbird.C13_legacy_toDiGraph_changes_serialisation
